@@ -174,6 +174,7 @@ PROPS = {
         streams=[
             S("node", ["--cases", 120], ["--cases", 6000, "--ops", 120]),
             S("nodebig", ["--cases", 12], ["--cases", 300]),
+            S("sim", ["--cases", 100, "--conns", 2], ["--cases", 5000, "--conns", 3, "--nodes", 4]),
         ],
     ),
     "C07": dict(
@@ -182,6 +183,7 @@ PROPS = {
         assumptions=NODE_ASSUME,
         streams=[
             S("node", ["--cases", 120, "--peers", 4], ["--cases", 6000, "--peers", 4, "--ops", 120]),
+            S("sim", ["--cases", 100, "--conns", 2], ["--cases", 5000, "--conns", 3, "--nodes", 4]),
         ],
     ),
     "C12": dict(
